@@ -351,8 +351,8 @@ def run(tier):
                     it_unused = iter(b)
                     del it_unused
                 elif probe == 'items':
-                    if keyed or kind.startswith('lazyapply'):
-                        continue                # (a lazy apply runs its function - an epoch start - before it can know that key iteration is refused below)
+                    if keyed or kind.startswith('lazyapply') or kind == 'reshuffle_catch':
+                        continue                # (a lazy apply / a catching stage takes its frozen copy - an epoch start - before it can know that key iteration is refused below)
                     list(b.items())
                 elif probe == 'len': len(b)
                 elif probe == 'keys': b.keys()
